@@ -603,8 +603,9 @@ def handle_end_progs(state: TokenizerState) -> Iterator[TokenInfo]:
     ):
         state.end_progs[-1].join_line(state)
         state.pos = state.max
-    # else:
-    #     raise TokenError(f"Invalid string quotes at {state.pos} in {state.line}", (state.lnum, state.pos))
+    elif state.end_progs[-1].mode is None:
+        # a one-quote string that neither ends on its line nor continues with a backslash
+        raise TokenError("unterminated string literal", state.end_progs[-1].start)
 
 
 def _tokenize(readline: Callable[[], str]) -> Iterator[TokenInfo]:
